@@ -54,7 +54,7 @@ def run(P, R, tier):
     from rules import common as _common
     _common.no_fastmath(P, R, 'C01.k', ['spatialpandas.geometry._algorithms.intersection', 'spatialpandas.geometry._algorithms.orientation'])
     orientation_table(P, R)
-    box_edges(P, R)
+    box_edges(P, R, tier)
 
 
 # ------------------------------------------------------------------------------------------------------------------ C01.a / C01.c / C01.d
@@ -516,33 +516,150 @@ def reject_and_shortcut(P, R):
                                 f'a segment lying on a box edge line is lost', counterexamples=bad[:5])
 
 
-# ------------------------------------------------------------------------------------------------------------------ C01.j
-def box_edges(P, R):
-    """A segment without an end point in the closed box that meets the box crosses its boundary on two different edges (or touches one):
-    testing any three of the four edges is sufficient, testing only two is not (the segment through the other two is missed).  Each tested
-    edge must be a real edge: two corners sharing exactly one coordinate."""
+# ------------------------------------------------------------------------------------------------------------------ C01.j / C01.m
+class _PrefixEnd(Exception):
+    pass
+
+
+def _reaches(P, g, target, depth=3, seen=None):
+    seen = seen if seen is not None else set()
+    if g is target:
+        return True
+    if depth <= 0 or g.key in seen:
+        return False
+    seen.add(g.key)
+    return any(_reaches(P, h, target, depth - 1, seen) for _, h in P.callees(g))
+
+
+def _run_edge_test(P, g, vals, rec, si, depth=3, stmts=None, env=None):
+    """Interpret repository function g (or, with `stmts`, a fragment of it) on symbolic arguments in the world where no edge test succeeds, so that
+    every edge test is visited.  Every invocation of segments_intersect is recorded as (its 8 arguments, outcome of its reject prefix)."""
+    env = dict(zip(g.params, vals)) if env is None else env
+    is_si = g is si and stmts is None
+
+    def call_hook(I, e, g=g):
+        r = P.resolve_call(g, e)
+        if not (r and r[0] == 'func') or e.keywords:
+            return None
+        h = r[1]
+        av = [I.expr(x) for x in e.args]
+        if is_si:
+            # inside the edge test: helpers made of comparisons are interpreted, the first arithmetic helper ends the reject prefix
+            try:
+                return ordeval.Just(_run_edge_test(P, h, av, rec, si, depth - 1)) if depth > 0 else None
+            except ordeval.NotComparisonOnly:
+                raise _PrefixEnd()
+        if h is si or (depth > 0 and _reaches(P, h, si)):
+            return ordeval.Just(_run_edge_test(P, h, av, rec, si, depth - 1))
+        return None
+
+    hooks = {'call': call_hook, 'opaque_test': lambda i_, n_: False}
+    if is_si:
+        try:
+            I, ctl = ordeval.run_fragment(g.node.body, env, hooks)
+        except (_PrefixEnd, ordeval.NotComparisonOnly):
+            rec.append((vals, 'passed'))
+            return OPQ
+        v = ctl.val if ctl is not None and ctl.kind == 'return' else OPQ
+        rec.append((vals, 'rejected' if v is False else ('accepted' if v is True else 'passed')))
+        return v
+    I, ctl = ordeval.run_fragment(stmts if stmts is not None else g.node.body, env, hooks)
+    return ctl.val if ctl is not None and ctl.kind == 'return' else None
+
+
+def box_edges(P, R, tier='quick'):
+    """C01.j  A segment without an end point in the closed box that meets the box crosses its boundary on two different edges (or touches one):
+    testing any three of the four edges is sufficient, testing only two is not.  Each tested edge must be a real edge (two corners sharing exactly
+    one coordinate).  The edges are collected by interpreting the call chain down to segments_intersect (direct calls, helpers, corner tuples walked in
+    a loop).
+    C01.m  Every reject taken inside segments_intersect before the orientation arithmetic is sound FOR THE ARGUMENTS IT RECEIVES AT THESE CALL SITES:
+    rejected  =>  the 1-d projections of the segment and of the edge are disjoint on some axis (all orderings of segment ends and oriented box)."""
     si = P.func(IX, 'segments_intersect')
+    # boxes of positive width and height only (the entry kernels return early for degenerate boxes: C01.b / the property's own restriction)
+    seg_cases = [o for o in ordeval.orderings(4) if o[0] < o[1]]
+    few = [(0, 3, 1, 2), (0, 1, 0, 0), (1, 2, 0, 3), (0, 1, 1, 0)]
     for name in PER_ELEMENT:
         f = P.func(IX, name)
         bn = f.params[1:5]
-        xs, ys = {bn[0], bn[2]}, {bn[1], bn[3]}
-        edges = set()
-        ncalls = 0
-        for c in ast.walk(f.node):
-            if isinstance(c, ast.Call) and astq.is_call_to(P, f, c, si) and len(c.args) == 8:
-                ncalls += 1
-                a = [norm(x) for x in c.args[4:8]]
-                ok = a[0] in xs and a[2] in xs and a[1] in ys and a[3] in ys
-                real = ok and ((a[0] == a[2]) != (a[1] == a[3]))
-                R.check(real, 'C01.j', f, c, 'the second segment is an edge of the box (two corners sharing exactly one coordinate)',
-                        f'`{", ".join(a)}` is not an edge of the box (diagonal, single corner, or not box corners)')
-                if real:
-                    edges.add(frozenset([(a[0], a[1]), (a[2], a[3])]))
-        if ncalls == 0:
-            R.abstain('C01.j', f, None, 'no segments_intersect calls found in the per-element routine')
+        sites = []
+        for loop in [l for l in ast.walk(f.node) if isinstance(l, ast.For)]:
+            segv = []
+            for s in loop.body:
+                if isinstance(s, ast.Assign) and isinstance(s.targets[0], ast.Name) and isinstance(s.value, ast.Subscript) and norm(s.value.value) == f.params[5]:
+                    segv.append((s.targets[0].id, norm(s.value.slice)))
+            if len(segv) != 4:
+                continue
+            xn = [n_ for n_, ix in segv if ix.count('+') == 0 or ix.endswith('+ 2')]
+            yn = [n_ for n_, ix in segv if ix.endswith('+ 1') or ix.endswith('+ 3')]
+            if len(xn) != 2 or len(yn) != 2:
+                continue
+            seg_assigns = [s for s in loop.body if isinstance(s, ast.Assign) and isinstance(s.targets[0], ast.Name) and s.targets[0].id in (xn + yn)]
+            rest = [s for s in loop.body if s not in seg_assigns]
+            if any(isinstance(c, ast.Call) and (lambda r: r and r[0] == 'func' and _reaches(P, r[1], si))(P.resolve_call(f, c)) for s in rest for c in ast.walk(s)):
+                sites.append((loop, rest, xn, yn))
+        if not sites:
+            R.abstain('C01.j', f, None, 'no call reaching segments_intersect found in the per-segment loop')
             continue
-        R.check(len(edges) >= 3, 'C01.j', f, None, f'{name} tests {len(edges)} distinct box edges (three suffice)',
-                f'{name} tests only {len(edges)} distinct box edge(s): a segment crossing the box through the untested edges, with both end points outside, is missed',
+        edges = set()
+        unsound = []
+        undecided = False
+        ncases = 0
+        pairs = [(cx, cy) for cx in seg_cases for cy in (seg_cases if tier == 'thorough' else few)] + ([] if tier == 'thorough' else [(cx, cy) for cx in few for cy in seg_cases])
+        for loop, rest, xn, yn in sites:
+            for cx, cy in pairs:
+                env = box_env((cx[0], cx[1]), (cy[0], cy[1]), bn)
+                env.update({xn[0]: Sym(cx[2], 'ex0', 'X'), xn[1]: Sym(cx[3], 'ex1', 'X'), yn[0]: Sym(cy[2], 'ey0', 'Y'), yn[1]: Sym(cy[3], 'ey1', 'Y')})
+                rec = []
+                try:
+                    _run_edge_test(P, f, None, rec, si, stmts=rest, env=env)
+                except ordeval.Ctl:
+                    pass
+                except (ordeval.NotComparisonOnly, ordeval.AxisMismatch, _PrefixEnd, RecursionError, KeyError, NameError, TypeError):
+                    undecided = True
+                    break
+                ncases += 1
+                for v, outcome in rec:
+                    if len(v) != 8 or not all(isinstance(x, Sym) for x in v):
+                        undecided = True
+                        continue
+                    tags = [x.tag for x in v]
+                    if tags != ['X', 'Y', 'X', 'Y', 'X', 'Y', 'X', 'Y']:
+                        undecided = True
+                        continue
+                    b = [x.name for x in v[4:8]]
+                    if all(n_ in ('x0', 'x1', 'y0', 'y1') for n_ in b):
+                        edges.add(((b[0], b[1]), (b[2], b[3])))
+                    if outcome == 'rejected':
+                        ax, ay, bx, by = (v[0].rank, v[2].rank), (v[1].rank, v[3].rank), (v[4].rank, v[6].rank), (v[5].rank, v[7].rank)
+                        ovx = not (max(ax) < min(bx) or min(ax) > max(bx))
+                        ovy = not (max(ay) < min(by) or min(ay) > max(by))
+                        a_zero = ax[0] == ax[1] and ay[0] == ay[1]      # a repeated vertex is a point: covered by the vertex test and by its neighbours
+                        if ovx and ovy and not a_zero:
+                            unsound.append({'edge': b, 'x(q0,q1,e0,e1)': cx, 'y(q0,q1,e0,e1)': cy})
+            if undecided:
+                break
+        R.count('orderings', ncases)
+        if undecided:
+            R.abstain('C01.m', f, None, f'{name}: the call chain down to segments_intersect is not interpretable (non-comparison construct before the edge test)')
+        else:
+            R.check(not unsound, 'C01.m', f, None, f'{name}: every reject inside segments_intersect is sound for the edges it is called with ({ncases} orderings x edges)',
+                    f'{name}: segments_intersect rejects a segment whose projections overlap the edge\'s on both axes on {len(unsound)} cases, e.g. {unsound[:2]}: '
+                    'the reject assumes an end-point order that these call sites do not provide, so a crossing of that edge is missed',
+                    construct=f'{name}: reject soundness at the edge call sites', counterexamples=unsound[:5])
+        if not edges:
+            R.abstain('C01.j', f, None, 'no edge passed to segments_intersect could be identified')
+            continue
+        xs, ys = {'x0', 'x1'}, {'y0', 'y1'}
+        real_edges = set()
+        for (p0, p1) in sorted(edges):
+            ok = p0[0] in xs and p1[0] in xs and p0[1] in ys and p1[1] in ys
+            real = ok and ((p0[0] == p1[0]) != (p0[1] == p1[1]))
+            R.check(real, 'C01.j', f, None, 'the second segment is an edge of the box (two corners sharing exactly one coordinate)',
+                    f'`{p0[0]}, {p0[1]}, {p1[0]}, {p1[1]}` is not an edge of the box (diagonal, single corner, or not box corners)', construct=f'{name}: edge {p0}-{p1}')
+            if real:
+                real_edges.add(frozenset([p0, p1]))
+        R.check(len(real_edges) >= 3, 'C01.j', f, None, f'{name} tests {len(real_edges)} distinct box edges (three suffice)',
+                f'{name} tests only {len(real_edges)} distinct box edge(s): a segment crossing the box through the untested edges, with both end points outside, is missed',
                 construct=f'{name}: distinct box edges tested')
 
 
